@@ -82,7 +82,7 @@ Section Grouping.
     group tag_key l = fold_left (fun d o => aappend d (tag_key (first_tag o)) o) l [].
   Proof.
     intros l H. unfold group. apply fold_left_ext_in. intros d o Hin.
-    unfold group_step. rewrite (single_tag_default o (H o Hin)). reflexivity.
+    unfold group_step, group_tags. rewrite (single_tag_default o (H o Hin)). reflexivity.
   Qed.
   Lemma candidates_single : forall l, single_tag l ->
     candidates tag_key l = fold_left (fun d o => aappend d (tag_key (first_tag o)) (first_tag o)) l [].
@@ -219,11 +219,14 @@ Proof.
   apply H in X. vm_compute in X. discriminate.
 Qed.
 
-(* F01e — no operation at all *)
-Theorem refuted_F01e :
-  guard_F01e [] = false /\ mock_props idf idf ident_any [] = None
-  /\ client_props idf idf idf idf no_score ident_any [] = Some [].
-Proof. repeat split; vm_compute; reflexivity. Qed.
+(* F01e FIXED — regression: without any operation both clients have no tag property and agree *)
+Theorem fixed_F01e :
+  mock_props idf idf ident_any [] = Some [] /\ client_props idf idf idf idf no_score ident_any [] = Some []
+  /\ same_tags idf idf idf idf no_score ident_any [].
+Proof.
+  split; [reflexivity|]. split; [reflexivity|].
+  exists [], []. repeat split; try reflexivity; intros [].
+Qed.
 
 Definition ops_ok13 : list op :=
   [ {| o_id := s_a; o_method := s_GET; o_path := s_pa; o_tags := [s_Users] |};
